@@ -61,6 +61,10 @@ def tup(x):
     return x
 
 
+class Unjudged(Exception):
+    """the op collides with / refers to an object whose registration is outside the statement"""
+
+
 HALF = 'HALF'   # driven (or maybe driven) by a half-registered newcomer: identity not judged, not reused
 
 
@@ -70,9 +74,20 @@ class Model:
         self.wire_names = {'top': {'clk': 'W_clk'}}    # sid -> {name: wid}
         self.wires = {'W_clk': dict(scope='top', name='clk', width=1, kind='wire', driver=None, reg=True)}
         self.children = {}                             # cid -> dict(scope, name)
-        self.ifaces = {}                               # iid -> dict(scope, name, s2s=[wid], k2s=[wid])
+        self.ifaces = {}                               # iid -> dict(scope, name, s2s=[wid], k2s=[wid], n_s2s=[name], n_k2s=[name])
+        self.used = set()                              # wids that were ever attached to a port of some block
 
     # ---- helpers
+    def _name_taken(self, sid, name):
+        """True: a wire of that name is registered and must stay; Unjudged: the name belongs to a wire that was dropped from
+        its only interface and is used by nothing -- whether it still counts as a wire of the parent is not stated"""
+        wid = self.wire_names[sid].get(name)
+        if wid is None:
+            return False
+        if self.wires[wid].get('free'):
+            raise Unjudged(name)
+        return True
+
     def _drive(self, wids, who):
         """ports created in order; returns index of the first conflicting one or None"""
         seen = []
@@ -89,7 +104,7 @@ class Model:
         return None
 
     def _new_wire(self, sid, name, wid, width, kind='wire'):
-        if name in self.wire_names[sid]:
+        if self._name_taken(sid, name):
             return True
         self.wire_names[sid][name] = wid
         self.wires[wid] = dict(scope=sid, name=name, width=width, kind=kind, driver=None, reg=True)
@@ -112,7 +127,7 @@ class Model:
         k = op['op']
         try:
             return getattr(self, 'op_' + k)(op, path)
-        except KeyError:
+        except (KeyError, Unjudged):
             return None, None       # refers to something that does not exist (any more): outside the generator's contract
 
     def op_wire(self, op, path):
@@ -139,6 +154,7 @@ class Model:
                 return None, None
         if self._new_child(op['scope'], op['name'], op['cid'], op['cls'] not in STRUCT_CLS, op['ins'], op['outs']):
             return True, path
+        self.used.update(op['ins'] + op['outs'] + op.get('inouts', []))
         r = self._drive(op['outs'] + op.get('inouts', []), op['cid'])
         if r == 'unjudged':
             return None, None
@@ -160,6 +176,7 @@ class Model:
                 self._half_child(op['cid'])
                 return True, path
         outs = [op['bind'].get(n) or op['new'][n] for n in op['outs']]
+        self.used.update(list(op['bind'].values()) + list(op['new'].values()))
         r = self._drive(outs, op['cid'])
         if r == 'unjudged':
             return None, None
@@ -178,6 +195,7 @@ class Model:
         self.wire_names[op['sid']] = {}
         for wid in op['ins'] + op['outs']:
             self.wires[wid]
+        self.used.update(op['ins'] + op['outs'])
         for j, inner in enumerate(op['inner']):
             e, fp = self.apply(inner, path + (j,))
             if e is None:
@@ -196,7 +214,7 @@ class Model:
 
     def _rereg(self, w, wid, sid, name):
         w['scope'], w['name'] = sid, name
-        if name in self.wire_names[sid]:
+        if self._name_taken(sid, name):
             w['reg'] = False      # half-registered: removed from the old table, refused by the new one
             return True
         self.wire_names[sid][name] = wid
@@ -216,7 +234,60 @@ class Model:
 
     def op_iface(self, op, path):
         self.wire_names[op['scope']]
-        self.ifaces[op['iid']] = dict(scope=op['scope'], name=op['name'], s2s=[], k2s=[])
+        self.ifaces[op['iid']] = dict(scope=op['scope'], name=op['name'], s2s=[], k2s=[], n_s2s=[], n_k2s=[])
+        return False, path
+
+    def op_axi(self, op, path):
+        """a library interface class: its constructor adds the signals one after the other"""
+        self.wire_names[op['scope']]
+        f = dict(scope=op['scope'], name=op['name'], s2s=[], k2s=[], n_s2s=[], n_k2s=[])
+        made = []
+        for d, name, width, wid in op['sigs']:
+            if self._new_wire(op['scope'], op['name'] + '_' + name, wid, width):
+                for x in made:          # created before the refusal, the interface object was never returned: not reused
+                    self.wires[x]['reg'] = False
+                return True, path
+            made.append(wid)
+            f[d].append(wid)
+            f['n_' + d].append(name)
+        self.ifaces[op['iid']] = f
+        return False, path
+
+    def op_subif(self, op, path):
+        """AXI4Interface.getWriteSubInterface()/getReadSubInterface(): a new interface holding the parent's wires by reference"""
+        p = self.ifaces[op['of']]
+        f = dict(scope=p['scope'], name='%s_sub_%s' % (p['name'], op['which']), s2s=[], k2s=[], n_s2s=[], n_k2s=[])
+        for d in ('s2s', 'k2s'):
+            for name in op['names'][d]:
+                if name not in p['n_' + d]:
+                    raise Unjudged(name)            # the library raises 'not found': not a clause of this property
+                f[d].append(p[d][p['n_' + d].index(name)])
+                f['n_' + d].append(name)
+        self.ifaces[op['iid']] = f
+        return False, path
+
+    def op_ifref(self, op, path):
+        p, f = self.ifaces[op['of']], self.ifaces[op['iid']]
+        d = op['dir']
+        if op['name'] not in p['n_' + d]:
+            raise Unjudged(op['name'])
+        f[d].append(p[d][p['n_' + d].index(op['name'])])
+        f['n_' + d].append(op['name'])
+        return False, path
+
+    def op_ifremove(self, op, path):
+        """Interface.removeSourceToSink/removeSinkToSource: the interface forgets the signal.  The wire stays a wire of its parent
+        (registered, name taken) as long as another live interface lists it or a port is attached to it"""
+        f = self.ifaces[op['iid']]
+        d = op['dir']
+        if op['name'] not in f['n_' + d]:
+            raise Unjudged(op['name'])
+        k = f['n_' + d].index(op['name'])
+        wid = f[d].pop(k)
+        f['n_' + d].pop(k)
+        held = any(wid in g['s2s'] or wid in g['k2s'] for g in self.ifaces.values())
+        if not held and wid not in self.used:
+            self.wires[wid]['free'] = True
         return False, path
 
     def op_ifwire(self, op, path):
@@ -224,6 +295,7 @@ class Model:
         if self._new_wire(f['scope'], f['name'] + '_' + op['name'], op['wid'], op['width']):
             return True, path
         f[op['dir']].append(op['wid'])
+        f['n_' + op['dir']].append(op['name'])
         return False, path
 
     def op_ifleaf(self, op, path):
@@ -232,6 +304,7 @@ class Model:
         read = f['k2s'] if op['role'] == 'source' else f['s2s']
         if self._new_child(op['scope'], op['name'], op['cid'], True, read, driven):
             return True, path
+        self.used.update(list(read) + list(driven))
         r = self._drive(list(driven), op['cid'])
         if r == 'unjudged':
             return None, None
@@ -384,6 +457,41 @@ class Exec:
     def op_iface(self, op, path):
         self.ifaces[op['iid']] = self.py4hw.Interface(self.scopes[op['scope']], op['name'])
 
+    def op_axi(self, op, path):
+        from py4hw.logic.bus import axi
+        f = getattr(axi, op['cls'])(self.scopes[op['scope']], op['name'], *op['args'])
+        self.ifaces[op['iid']] = f
+        n = 0
+        for d, name, width, wid in op['sigs']:
+            w = f.getSourceToSink(name) if d == 's2s' else f.getSinkToSource(name)
+            if w.getWidth() != width:
+                self.notes.append('%s signal %s has another width than the plan recorded' % (op['cls'], name))
+            self.wires[wid] = w
+            n += 1
+        if n != len(f.sourceToSink) + len(f.sinkToSource):
+            self.notes.append('%s has other signals than the plan recorded' % op['cls'])
+
+    def op_subif(self, op, path):
+        p = self.ifaces[op['of']]
+        f = p.getWriteSubInterface() if op['which'] == 'write' else p.getReadSubInterface()
+        self.ifaces[op['iid']] = f
+        if [x[0] for x in f.sourceToSink] != list(op['names']['s2s']) or [x[0] for x in f.sinkToSource] != list(op['names']['k2s']):
+            self.notes.append('sub-interface %s has other signals than the plan recorded' % op['which'])
+
+    def op_ifref(self, op, path):
+        f, p = self.ifaces[op['iid']], self.ifaces[op['of']]
+        if op['dir'] == 's2s':
+            f.addSourceToSinkRef(p, op['name'])
+        else:
+            f.addSinkToSourceRef(p, op['name'])
+
+    def op_ifremove(self, op, path):
+        f = self.ifaces[op['iid']]
+        if op['dir'] == 's2s':
+            f.removeSourceToSink(op['name'])
+        else:
+            f.removeSinkToSource(op['name'])
+
     def op_ifwire(self, op, path):
         f = self.ifaces[op['iid']]
         w = f.addSourceToSink(op['name'], op['width']) if op['dir'] == 's2s' else f.addSinkToSource(op['name'], op['width'])
@@ -420,7 +528,7 @@ def verify(model, ex):
         if obj is None:
             continue
         for name, wid in names.items():
-            if wid not in ex.wires:
+            if wid not in ex.wires or model.wires[wid].get('free'):
                 continue
             if obj._wires.get(name) is not ex.wires[wid]:
                 bad.append(('wire', '%s._wires[%r] is no longer the first wire' % (sid, name)))
